@@ -512,6 +512,13 @@ class Translator:
                 x = self.tmp()
                 binds.append((x, f'{fn.coq_name} ' + ' '.join(a for a, _ in args)))
                 return x, fn.ret
+            if isinstance(f, ast.Attribute) and f.attr == 'index' and len(args) == 2 and not e.keywords and 'array.index' in getattr(self, 'builtins', ()):
+                v, t = self.expr(f.value, env, binds)
+                if t != 'list:int' or [ta for _, ta in args] != ['int', 'int']:
+                    raise TransError('index() is only translated for an array of bytes')
+                x = self.tmp()
+                binds.append((x, f'u8_index {v} {args[0][0]} {args[1][0]}'))      # array.index(value, start): ValueError when absent
+                return x, 'int'
             if isinstance(f, ast.Attribute):
                 v, t = self.expr(f.value, env, binds)
                 fn = self.fns.get(f'{t}.{f.attr}')
@@ -757,6 +764,12 @@ class Translator:
             return self.wrap(binds, f'let {cname(name)} := ({env[name][0]} ++ {v}) in {body}'), tb
         if isinstance(st, ast.While):
             return self.while_loop(st, rest, env)
+        if isinstance(st, ast.Try) and not st.orelse and not st.finalbody and len(st.handlers) == 1 and isinstance(st.handlers[0].type, ast.Name) \
+                and st.handlers[0].type.id in ERR and st.handlers[0].name is None and self.ends(st.body) and self.ends(st.handlers[0].body) and not self.loops:
+            # try: <returns> except SomeError: <returns>  - the handler runs exactly when the body ends in that error
+            a, ta = self.block(st.body, env)
+            b, tb = self.block(st.handlers[0].body, env)
+            return f'match ({a}) with Err {ERR[st.handlers[0].type.id]} => {b} | _r => _r end', self.join(ta, tb)
         if isinstance(st, ast.Assign) and len(st.targets) == 1 and isinstance(st.targets[0], ast.Subscript) and isinstance(st.targets[0].value, ast.Name):
             # a[i] = <byte literal> on an array('B') (any other value could raise OverflowError)
             name = st.targets[0].value.id
